@@ -65,7 +65,8 @@ Classes(fam) ==
            << [theta |-> <<2000000, 1500000, 500000>>, scale |-> 2800],
               [theta |-> <<1000000, 2000000, 200000>>, scale |-> 4160],
               [theta |-> <<3000000, 1000000, 1000000>>, scale |-> 2670],
-              [theta |-> <<1500000, 1200000, 2000000>>, scale |-> 580] >>
+              [theta |-> <<1500000, 1200000, 2000000>>, scale |-> 580],
+              [theta |-> <<4400000, 1700000, 232600>>, scale |-> 9700] >>
       [] fam = "VonMises" ->
            << [theta |-> <<2000000, 500000>>, scale |-> 1000],
               [theta |-> <<5000000, -1000000>>, scale |-> 1000],
@@ -125,6 +126,18 @@ StartOne(role, v) ==
       [] role = "angle"                   -> v + 300000
 UserStart(fam, theta) == [i \in 1..Len(theta) |-> StartOne(Roles(fam)[i], theta[i])]
 
+(* a FAR user start: ordinary metocean magnitudes, but an order of magnitude away from the *)
+(* data (as the start left behind by an earlier fit of the same object to other data)       *)
+FarOne(role, v) ==
+    CASE role = "scale"      -> v * 8
+      [] role = "recipscale" -> v \div 8
+      [] role = "logscale"   -> v + 2080000
+      [] OTHER               -> v
+FarStart(fam, theta) ==
+    CASE fam = "ExponentiatedWeibull" -> <<theta[1] * 10, theta[2], theta[3] * 5>>
+      [] fam = "GeneralizedGamma"     -> <<theta[1] \div 5, theta[2], theta[3] * 6>>
+      [] OTHER -> [i \in 1..Len(theta) |-> FarOne(Roles(fam)[i], theta[i])]
+
 (* label of a case: "regular", or one of the regions of the 3-parameter Weibull in      *)
 (* which scipy's Nelder-Mead from the fixed default start (gamma = 0: initial simplex    *)
 (* step 0.00025, absolute xtol = ftol = 1e-4) is measured not to reach the maximum.      *)
@@ -135,18 +148,18 @@ UserStart(fam, theta) == [i \in 1..Len(theta) |-> StartOne(Roles(fam)[i], theta[
 (*   smallloc: c*gamma < 0.02 (the absolute stopping tolerances are not small against    *)
 (*             the location; gamma stays near 0)                                         *)
 Label(fam, theta, num, den) ==
-    IF fam # "Weibull" THEN "regular"
+    IF fam = "GeneralizedGamma" THEN (IF theta[1] >= 4000000 THEN "highm" ELSE "regular")
+    ELSE IF fam # "Weibull" THEN "regular"
     ELSE IF theta[2] < 1500000 THEN "lowshape"
     ELSE IF theta[3] > 1000000 \/ theta[3] * num > 1000000 * den THEN "bigloc"
     ELSE IF theta[3] * num < 20000 * den THEN "smallloc"
     ELSE "regular"
 
-(* ScaleEquivariant presupposes an interior maximum.  The 3-parameter generalised gamma  *)
-(* likelihood of a sample of 100 points frequently has none (it increases along the      *)
-(* ridge m -> inf, c -> 0 towards the log-normal limit; measured: lambda_ > 200 after    *)
-(* the 600 iterations scipy allows, re-fit still gaining 0.2), so "the estimate" that    *)
-(* should be equivariant does not exist there.  The likelihood clauses still apply.      *)
-Identifiable(fam, n) == ~(fam = "GeneralizedGamma" /\ n < 500)
+(* ScaleEquivariant is judged for every case.  (An earlier version exempted the generalised *)
+(* gamma with n < 500 on the belief that its likelihood has no interior maximum there; an   *)
+(* independent repro showed that the maximum exists and scipy's cap of 600 evaluations      *)
+(* stops Nelder-Mead on the way - reported as a finding: class=highm and n=100.)            *)
+Identifiable(fam, n) == TRUE
 
 ----------------------------------------------------------------------------
 (* clause operators over measured quantities                                   *)
